@@ -483,6 +483,8 @@ class AccessMixin:
             r = self.field_read(v, attr)
             if r is not None:
                 return r
+            if self.engine.is_exception_class(attr):
+                return ClassRef(attr)
             cc = self.engine.index.class_constants(v.ty.args[0].name)
             if cc and attr in cc:
                 return self.engine.pyvalue(cc[attr])      # class-level constant read through the instance
@@ -643,6 +645,11 @@ class AccessMixin:
             return SV(INT, z3.If(b > a, b - a, 0)), (lambda idx: SV(INT, a + idx))
         if is_str(it):
             return ctx.strs.length(it), (lambda idx: ctx.strs.index(it, idx))
+        if isinstance(it, ProjV):
+            ln, at = self.iter_model(it.inner)
+            return ln, (lambda idx: at(idx)[it.index])
+        if isinstance(it, Cell) and it.kind == "dict" and it.sym is not None:
+            return self.iter_model(self.engine.dict_view(self, it, "keys"))
         if isinstance(it, EnumV):
             ln, at = self.iter_model(it.inner)
             st = ctx.term(it.start, INT)
@@ -670,3 +677,9 @@ class EnumV:
 class ZipV:
     def __init__(self, parts):
         self.parts = parts
+
+
+class ProjV:
+    """component `index` of every tuple of an iterable (dict.keys()/values() views)"""
+    def __init__(self, inner, index):
+        self.inner, self.index = inner, index
